@@ -16,7 +16,7 @@ EXPLANATION = ("Three-way agreement decided from the source on every run: for 43
                "with the header/tail mirror. A symmetric change of writer and reader (invisible to any round-trip test) changes two "
                "of the three. Not decided: that an independent decoder recovers the logical content; that a corpus reads."
                " (R7) plain value store: the declared data size equals what write_data emits (the remembered key changes only where the accumulator advances); (R8) cluster pointers are tail offsets (= C01-R6)."
-               " Added later: (R9) counts are compared with their field's maximum before they are narrowed; (R10) positions stored in a pack written at a recorded origin are pack-relative; (R11) offset widths come from the total (= C02-R8); (R12) column widths are chosen on final positions (= C15-R1). (R13) every table is one checked block (= C01-R18).")
+               " Added later: (R9) counts are compared with their field's maximum before they are narrowed; (R10) positions stored in a pack written at a recorded origin are pack-relative; (R11) offset widths come from the total (= C02-R8); (R12) column widths are chosen on final positions (= C15-R1). (R13) every table is one checked block (= C01-R18). (R14) every counted value is sized (= C02-R17).")
 ASSUMPTIONS = ["the reference table was written from the pinned sources (DESIGN.md Appendix A)", "zerocopy/byteorder LE/BE helpers behave as documented",
                "rustc HIR/MIR construction and trait resolution"]
 
@@ -744,7 +744,15 @@ def r11_offset_widths(cx):
     c02.r8_width_covers(cx, rule="R11")
 
 
+def r14_every_value_takes_part_in_the_sizing(cx):
+    """'sizes ... recovers exactly the logical content': the declared width of an integer column covers every value written
+    in it (= C02-R17 under C14)"""
+    import c02
+    c02.r17_every_value_takes_part_in_the_sizing(cx, rule="R14")
+
+
 RULES = [
+    ("R14", r14_every_value_takes_part_in_the_sizing, 1),
     ("R13", r13_tables_are_single_blocks, 5),
     ("R12", r12_widths_chosen_on_final_positions, 7),
     ("R11", r11_offset_widths, 3),
